@@ -1,15 +1,18 @@
 (* C12 — Reverse proxy routes matching requests to a configured upstream, as documented.
    Statements only; proofs are in Net/ReverseFacts.v.  Model: Net/Reverse.v.
 
-   Scope of every statement: the FIRST request of a client connection (state [init_state]);
+   Scope of the statements up to C12_nonvacuous: the FIRST request of a client connection (state [init_state]);
    ReverseProxy is the only HttpWebServerBasePlugin and the static server is off (what
    --enable-reverse-proxy loads); plugins keep the default protocols(); handle_route is a function
    of the request; DEFAULT_DISABLE_HEADERS = [] (checked against /repo on every run).
    [re_match] is Python's re (oracle), the list [rs] the raw draws behind random.choice, the
    configured upstream URL is the already parsed [url] record.
-   A second keep-alive request on the same connection replaces self.upstream (known defect owned
-   by C04/C10) and is outside these theorems. *)
-From PM Require Import Lib.Bytes Lib.PyStr Net.Reverse Net.ReverseFacts.
+   LATER requests of the same connection (web.py on_client_data -> ReverseProxy.handle_request in the state
+   the previous request left) are the subject of the last section: C12_later_requests_routed,
+   C12_later_no_route, C12_later_not_keep_alive over the connection-level model Net/ReverseConv.v.
+   That every such request replaces self.upstream without closing the previous object is modelled as it
+   is (recorded findings C04-reverse-followup / C10-reverse-upstream-replacement) and not judged here. *)
+From PM Require Import Lib.Bytes Lib.PyStr Net.Reverse Net.ReverseFacts Net.ReverseConv Net.ReverseConvFacts.
 Open Scope N_scope.
 
 (* One plugin (the documented configuration), any table, any request, any draw:
@@ -236,3 +239,146 @@ Example C12_nonvacuous :
   (let '(st, _, r) := on_request_complete ex_match (ex_cfg true) [ex_plugin] ConnOk (Ok tt) (ex_req (bs "/nope")) [] init_state in
    r = Ok true /\ connect_log st = [] /\ upstream_ st = None /\ length (client_queue st) = 1%nat).
 Proof. vm_compute. repeat split; reflexivity. Qed.
+
+
+(* ================================================================== later requests of a connection
+   Model: Net/ReverseConv.v (proofs Net/ReverseConvFacts.v).  A client connection is its first request [a0]
+   followed by a list [l] of later requests, each a complete request arriving in one segment after the previous
+   exchange is over (its rebuilt form flushed to the upstream, the upstream's answer read and queued to the
+   client).  [conversation] runs on_request_complete for [a0] and, for every later request, what
+   HttpWebServerPlugin.on_client_data does: ReverseProxy.handle_request again, in the state left behind.
+
+   One plugin (the documented configuration), any table, any number of requests, any draws:
+   if request i (i = 0 is the first) has route [t_route t_i] as the FIRST route of the table matching ITS path and
+   that route designates [t_url t_i] (= u_i), requests and URLs well-formed, all requests keep-alive, then the
+   whole connection is served without teardown and
+   * exactly one outbound connection is made per request: the connect log is [(host u_0, port u_0); ...;
+     (host u_n, port u_n)], ports defaulted by scheme ([url_addr]); the socket layer is given the host without
+     IPv6 brackets ([socket_addr] = utils.py new_socket_connection);
+   * TLS is wrapped for exactly the https ones, in order;
+   * the connection has had exactly one upstream object per request, and the i-th one has the address of u_i and
+     its peer received exactly one packet, which a reference HTTP/1.1 reader sees as request i under the documented
+     rewriting of C12_routes ([forwarded cfg u_i req_i]) — never a packet of another request, never at the
+     upstream of the previous request;
+   * the client is queued every segment of every upstream answer, unmodified and in order. *)
+Theorem C12_later_requests_routed :
+  forall (pattern : Type) (re_match : pattern -> bytes -> bool)
+         (cfg : config) (pl : plugin pattern) (a0 : arrival) (l : list arrival)
+         (ts : list (target pattern)) (rs : list nat),
+    disable_headers cfg = [] ->
+    routed re_match pl (a0 :: l) ts rs ->
+    is_http_1_1_keep_alive (a_req a0) = true ->
+    Forall (fun a => is_http_1_1_keep_alive (a_req a) = true) l ->
+    exists k rs',
+      conversation re_match cfg [pl] a0 l rs = (k, rs', Ok false) /\
+      connect_log (k_rev k) = map (fun t => url_addr (t_url t)) ts /\
+      wrap_log (k_rev k) = flat_map (fun t => wrap_of (t_url t)) ts /\
+      client_queue (k_rev k) = flat_map (fun a => data_of (a_reads a)) (a0 :: l) /\
+      length (upstream_history k) = length (a0 :: l) /\
+      forall i a t, nth_error (a0 :: l) i = Some a -> nth_error ts i = Some t ->
+        exists h wire,
+          u_hostname (t_url t) = Some h /\
+          nth_error (connect_log (k_rev k)) i = Some (h, upstream_port (t_url t)) /\
+          nth_error (map socket_addr (connect_log (k_rev k))) i = Some (socket_host h, upstream_port (t_url t)) /\
+          nth_error (upstream_history k) i = Some ((h, upstream_port (t_url t)), [wire]) /\
+          ref_parse wire = Some (forwarded cfg (t_url t) (a_req a)).
+Proof. exact later_requests_routed_conn. Qed.
+Print Assumptions C12_later_requests_routed.
+
+(* new_socket_connection strips the brackets of an IPv6 literal *)
+Theorem C12_socket_host_brackets : forall x, socket_host ([91] ++ x ++ [93]) = x.
+Proof. exact socket_host_brackets. Qed.
+Print Assumptions C12_socket_host_brackets.
+
+(* A later request that matches NO route (any number of plugins, any state [k] of a connection whose first request
+   was routed, i.e. self.route is set, and was keep-alive): on_client_data does not go through _try_route, so there
+   is no 404.  handle_request finds no route and returns: no outbound connection, no TLS wrap, NOTHING queued to
+   the client, no upstream object created or replaced, and no teardown when the request is keep-alive (the client
+   is left without an answer on a connection that stays open — this is recorded finding C04-web-followup-route,
+   stated here exactly, not judged); when it is not keep-alive the only effect is the HttpProtocolException
+   ('Pipelined request is not keep-alive'), i.e. a bare teardown.  The state is literally unchanged, except that
+   after a websocket-upgrade first request ReverseProxy.on_client_data has queued the raw segment on the current
+   upstream. *)
+Theorem C12_later_no_route :
+  forall (pattern : Type) (re_match : pattern -> bytes -> bool)
+         (cfg : config) (ps : list (plugin pattern)) (first : request) (a : arrival) (rs : list nat)
+         (k : conn) (p : bytes),
+    route_set (k_rev k) = true -> is_http_1_1_keep_alive first = true ->
+    (is_websocket_upgrade first = true -> upstream_ (k_rev k) <> None) ->
+    r_path (a_req a) = Some p -> utf8_valid p = true ->
+    (forall pl, In pl ps -> before_routing pl (a_req a) = Some (a_req a)) ->
+    existsb (fun pat => re_match pat p) (routes ps) = false ->
+    let k' := if is_websocket_upgrade first then with_rev k (upstream_queue (k_rev k) (a_raw a)) else k in
+    web_on_client_data re_match cfg ps first a rs k
+    = (k', rs, if is_http_1_1_keep_alive (a_req a) then Ok tt else Err (HttpProtocolException 5)) /\
+    connect_log (k_rev k') = connect_log (k_rev k) /\ wrap_log (k_rev k') = wrap_log (k_rev k) /\
+    client_queue (k_rev k') = client_queue (k_rev k) /\ upstream_history k' = upstream_history k.
+Proof. exact later_no_route_spec. Qed.
+Print Assumptions C12_later_no_route.
+
+(* A later request that matches a route but is NOT keep-alive (HTTP/1.0, Connection: close): it is routed and
+   connected like any other (one connect, to its own route's upstream) and its rebuilt form is queued on the new
+   upstream object, but on_client_data then raises HttpProtocolException; the handler tears down and nothing
+   flushes the queue, so the upstream's peer has received nothing and the client is queued nothing.
+   What the code does — stated exactly, not judged (C04 territory). *)
+Theorem C12_later_not_keep_alive :
+  forall (pattern : Type) (re_match : pattern -> bytes -> bool)
+         (cfg : config) (pl : plugin pattern) (first : request) (a : arrival) (t : target pattern)
+         (rs : list nat) (k : conn),
+    route_set (k_rev k) = true -> is_http_1_1_keep_alive first = true ->
+    (is_websocket_upgrade first = true -> upstream_ (k_rev k) <> None) ->
+    (upstream_ (k_rev k) = None -> k_received k = []) ->
+    disable_headers cfg = [] ->
+    is_http_1_1_keep_alive (a_req a) = false ->
+    routed_one re_match pl a t rs ->
+    exists h wire k',
+      u_hostname (t_url t) = Some h /\
+      later_request re_match cfg [pl] first a rs k = (k', draws_after (t_route t) rs, Err (HttpProtocolException 5)) /\
+      connect_log (k_rev k') = connect_log (k_rev k) ++ [(h, upstream_port (t_url t))] /\
+      upstream_ (k_rev k') = Some (mkUp (h, upstream_port (t_url t)) [wire] false true) /\
+      k_received k' = [] /\
+      client_queue (k_rev k') = client_queue (k_rev k) /\
+      ref_parse wire = Some (forwarded cfg (t_url t) (a_req a)).
+Proof. exact later_request_routed_not_keep_alive. Qed.
+Print Assumptions C12_later_not_keep_alive.
+
+(* ------------------------------------------------------------------ non-vacuity, later requests *)
+Definition ex_kreq (path : bytes) : request :=
+  mkRequest (bs "GET") (Some path) (bs "HTTP/1.1") [(bs "host", (bs "Host", bs "me.example"))] None false.
+Definition ex_arr (path : bytes) (answer : list bytes) : arrival :=
+  mkArr (bs "GET " ++ path ++ bs " HTTP/1.1" ++ CRLF ++ bs "Host: me.example" ++ CRLF ++ CRLF)
+        (ex_kreq path) ConnOk (Ok tt) (map RData answer).
+Definition ex_r1 : route N := Static 1 [ex_u1; ex_u2].
+Definition ex_r2 : route N := Dynamic 2 (fun _ => Ok (DUrl ex_u3)).
+
+(* three requests on one connection: /get (draw 7 -> the https upstream up2.example:8443), /getx (the dynamic
+   route -> [::1]:81), /get again (draw 4 -> up1.example:80); the hypotheses of C12_later_requests_routed hold,
+   and the model computes three connects, one upstream object per request, each having received its own
+   request only.  Then a fourth request /nope: nothing happens at all. *)
+Example C12_later_nonvacuous :
+  let a0 := ex_arr (bs "/get") [bs "HTTP/1.1 200 OK"; bs "..."] in
+  let l := [ex_arr (bs "/getx") [bs "r2"]; ex_arr (bs "/get") [bs "r3"]] in
+  let ts := [mkTarget ex_r1 ex_u2; mkTarget ex_r2 ex_u3; mkTarget ex_r1 ex_u1] in
+  routed ex_match ex_plugin (a0 :: l) ts [7%nat; 4%nat] /\
+  is_http_1_1_keep_alive (a_req a0) = true /\
+  Forall (fun a => is_http_1_1_keep_alive (a_req a) = true) l /\
+  (let '(k, rs', r) := conversation ex_match (ex_cfg true) [ex_plugin] a0 l [7%nat; 4%nat] in
+   r = Ok false /\ rs' = [] /\
+   connect_log (k_rev k) = [(bs "up2.example", 8443); (bs "[::1]", 81); (bs "up1.example", 80)] /\
+   map socket_addr (connect_log (k_rev k)) = [(bs "up2.example", 8443); (bs "::1", 81); (bs "up1.example", 80)] /\
+   wrap_log (k_rev k) = [bs "up2.example"] /\
+   upstream_history k =
+     [((bs "up2.example", 8443), [bs "GET /base?x=1 HTTP/1.1" ++ CRLF ++ bs "Host: up2.example:8443" ++ CRLF ++ CRLF]);
+      ((bs "[::1]", 81), [bs "GET /dyn HTTP/1.1" ++ CRLF ++ bs "Host: [::1]:81" ++ CRLF ++ CRLF]);
+      ((bs "up1.example", 80), [bs "GET / HTTP/1.1" ++ CRLF ++ bs "Host: up1.example" ++ CRLF ++ CRLF])] /\
+   concat (client_queue (k_rev k)) = bs "HTTP/1.1 200 OK...r2r3" /\
+   (* a fourth request that matches no route: same state, no teardown *)
+   web_on_client_data ex_match (ex_cfg true) [ex_plugin] (a_req a0) (ex_arr (bs "/nope") []) [] k = (k, [], Ok tt)).
+Proof.
+  cbv zeta. split.
+  { cbn [routed]. unfold routed_one.
+    repeat split; try (eexists; repeat split); vm_compute; reflexivity. }
+  split; [vm_compute; reflexivity|].
+  split; [repeat constructor|].
+  vm_compute. repeat split; reflexivity.
+Qed.
